@@ -15,7 +15,7 @@ def run(chk):
     chk.expect_holds(res, "operational Resource table = documented table")
     chk.add_tlc(res, "128 action subsets x 4 base paths")
     lines = res.lines
-    if chk.tier != "thorough":   # quick: every subset once (bases spread over the subsets)
+    if False:   # (all 512 lines are cheap enough for the quick tier)
         seen = {}
         for i, l in enumerate(sorted(lines, key=lambda l: (sorted(l["impl"]), l["base"]))):
             k = tuple(sorted(l["impl"]))
